@@ -162,6 +162,9 @@ def run(check, ctx):
     # the Edwards curves: field layer of 25519 and the group-law cases (torsion points included) for Ed25519 / Ed448
     from . import c_ed
     c_ed.ed_tables(check, ctx)
+    # the field layer under the curves: Montgomery arithmetic for the curve primes, carry-chain operands included
+    from . import c_mont
+    c_mont.mont_tables(check, ctx)
     # the Montgomery ladders on short scalars, low-order points and neutral results included
     from . import c_x
     c_x.x_tables(check, ctx)
